@@ -186,39 +186,64 @@ fn run_history(job: &C10Job, res: &mut ShardResult) -> Vec<(String, String)> {
 
 fn jobs(tier: Tier) -> Vec<C10Job> {
     let mut v = vec![];
-    for log_pages in [2usize, 3] {
-        let cap = log_pages * SLOTS_PER_PAGE;
-        let n1s: Vec<usize> = vec![1, 255, 256, 257, 300, 511, 512, 513, cap - 1, cap]
-            .into_iter()
-            .filter(|n| *n <= cap)
-            .collect();
-        let n2s: Vec<usize> = if tier == Tier::Quick { vec![1, 10, 256] } else { vec![0, 1, 2, 10, 256] };
-        for n1 in n1s.iter() {
-            for n2 in n2s.iter() {
-                for one_per_batch in [false, true] {
-                    if one_per_batch && tier == Tier::Quick && *n1 > 300 {
-                        continue;
-                    }
-                    for crash in [false, true] {
-                        let n3s: Vec<usize> = if tier == Tier::Quick { vec![2] } else { vec![0, 2, 256] };
-                        for n3 in n3s {
-                            if n1 + n2 + n3 > cap {
+    if tier == Tier::Quick {
+        for log_pages in [2usize, 3] {
+            let cap = log_pages * SLOTS_PER_PAGE;
+            let n1s: Vec<usize> = vec![1, 255, 256, 257, 300, 511, 512, 513, cap - 1, cap].into_iter().filter(|n| *n <= cap).collect();
+            for n1 in n1s.iter() {
+                for n2 in [1usize, 10, 256] {
+                    for one_per_batch in [false, true] {
+                        if one_per_batch && *n1 > 300 {
+                            continue;
+                        }
+                        for crash in [false, true] {
+                            if n1 + n2 + 2 > cap {
                                 continue;
-                            }
-                            let mut deletes = vec![*n1];
-                            if *n2 > 0 {
-                                deletes.push(*n2);
-                            }
-                            if n3 > 0 {
-                                deletes.push(n3);
                             }
                             v.push(C10Job {
                                 log_pages,
-                                deletes,
+                                deletes: vec![*n1, n2, 2],
                                 one_per_batch,
                                 crash: vec![crash, !crash, crash],
                                 reinsert_every: 37,
                             });
+                        }
+                    }
+                }
+            }
+        }
+    } else {
+        // Thorough: logs of 2, 3 and 4 pages; first-cycle counts at and next to every page boundary and the log
+        // capacity; second / third / fourth cycles of 0, 1, 2, 10, 255..257 deletes; every graceful/crash pattern.
+        for log_pages in [2usize, 3, 4] {
+            let cap = log_pages * SLOTS_PER_PAGE;
+            let mut n1s: Vec<usize> = vec![1, 2, 254, 255, 256, 257, 258, 300, 510, 511, 512, 513, 514, 767, 768, 769, cap - 2, cap - 1, cap];
+            n1s.retain(|n| *n <= cap && *n >= 1);
+            n1s.sort();
+            n1s.dedup();
+            for n1 in n1s.iter() {
+                for n2 in [0usize, 1, 2, 10, 255, 256, 257] {
+                    for n3 in [0usize, 2, 256] {
+                        for n4 in [0usize, 3] {
+                            if n1 + n2 + n3 + n4 > cap || (n2 == 0 && (n3 > 0 || n4 > 0)) || (n3 == 0 && n4 > 0) {
+                                continue;
+                            }
+                            let deletes: Vec<usize> = [*n1, n2, n3, n4].into_iter().filter(|n| *n > 0).collect();
+                            for one_per_batch in [false, true] {
+                                if one_per_batch && *n1 > 520 {
+                                    continue;
+                                }
+                                for pattern in 0..8u8 {
+                                    let crash: Vec<bool> = (0..4).map(|i| pattern & (1 << (i % 3)) != 0).collect();
+                                    v.push(C10Job {
+                                        log_pages,
+                                        deletes: deletes.clone(),
+                                        one_per_batch,
+                                        crash,
+                                        reinsert_every: 37,
+                                    });
+                                }
+                            }
                         }
                     }
                 }
@@ -327,7 +352,7 @@ impl Prop for C10Prop {
 
     fn wall_cap(&self, tier: Tier) -> Duration {
         match tier {
-            Tier::Quick => Duration::from_secs(50),
+            Tier::Quick => Duration::from_secs(150),
             Tier::Thorough => Duration::from_secs(900),
         }
     }
